@@ -235,6 +235,87 @@ class TokIter(IterBase):
         return isinstance(o, TokIter) and o.pos == self.pos and o.slots is self.slots
 
 
+def _wordlike(s):
+    return len(s) > 0 and strings._alnum(ord(s[0])) and all(strings._alnum(ord(c)) or c in "-'" for c in s)
+
+
+def _seplike(s):
+    return len(s) > 0 and s[0] not in "-'" and all(not strings._alnum(ord(c)) for c in s)
+
+
+@dataclass(frozen=True, eq=False)
+class SlotText:
+    """a &str made of consecutive parts; every part is a solver-chosen alternative among concrete strings, all word-like
+    (alphanumeric start, then alphanumerics, - or ') or all separator-like (no alphanumeric, not starting with - or '),
+    classes alternating -- so that the tokenizer (whose behaviour on arbitrary characters is C02's obligation) cuts the
+    text exactly at the part boundaries"""
+    slots: tuple
+    lower: bool = False
+    type_name = 'str'
+    symbolic_input = True
+
+    def __post_init__(self):
+        prev = None
+        for alts in self.slots:
+            kinds = {('w' if _wordlike(t) else 's' if _seplike(t) else '?') for _, t in alts}
+            if len(kinds) != 1 or '?' in kinds:
+                raise Unsupported('SlotText part mixes word-like and separator-like alternatives: %r' % (sorted(t for _, t in alts)[:4],))
+            k = kinds.pop()
+            if k == prev:
+                raise Unsupported('SlotText parts of the same class are adjacent')
+            prev = k
+
+    def shape(self, ex):
+        return ('SlotText', self.lower)
+
+    def kind(self, i):
+        return 'w' if _wordlike(self.slots[i][0][1]) else 's'
+
+    def to_lowercase(self, ex):
+        return SlotText(tuple(tuple((c, strings.rust_lowercase(t)) for c, t in alts) for alts in self.slots), True)
+
+    def split_whitespace(self, ex):
+        words = []
+        for i, alts in enumerate(self.slots):
+            if self.kind(i) == 'w':
+                words.append(alts)
+            elif not all(all(strings.char_is_whitespace(ord(ch)) for ch in t) for _, t in alts):
+                raise Unsupported('split_whitespace of a SlotText with non-whitespace separators')
+        return SlotIter(tuple(words), 0, False)
+
+
+@dataclass(frozen=True, eq=False)
+class SlotTokens(IterBase):
+    """what tokenize() yields for a SlotText: one BasicToken per part"""
+    text: SlotText
+    symbolic_input = True
+
+    def collect_all(self, ex):
+        toks = []
+        for alts in self.text.slots:
+            vs = []
+            for c, t in alts:
+                vs.append((c, ex.call_path('BasicToken::new', [t])))
+            toks.append(vs[0][1] if len(vs) == 1 else Choice(tuple(vs)))
+        return Seq(tuple(toks), len(toks), '')
+
+
+def install_text_level(ex):
+    """enable the text-level abstractions on an executor"""
+    ex.lift_choices = True
+    name = ex.res.resolve_path('tokenize')
+    if name is None:
+        raise Unsupported('tokenize not found')
+
+    def tokenize_override(ex_, args):
+        t = ex_.deref(args[0])
+        if isinstance(t, SlotText):
+            return SlotTokens(t)
+        return NotImplemented
+    ex.fn_overrides[name] = tokenize_override
+    ex.merge_hook = merge_hook
+
+
 def _tok(ex, v):
     v = ex.deref(v)
     if isinstance(v, Choice):
@@ -265,10 +346,18 @@ def tok_nan(ex, args):
 
 
 def is_merge_iter(ex, v):
+    from .intrinsics import SliceIter
     v = ex.deref(v)
     if isinstance(v, Enumerate):
         v = v.inner
-    return isinstance(v, (SlotIter, TokIter))
+    if isinstance(v, (SlotIter, TokIter)):
+        return True
+    if isinstance(v, SliceIter) and ex.lift_choices and v.seq.cap:
+        e = v.seq.elems[0]
+        if isinstance(e, Choice):
+            e = e.alts[0][1]
+        return (isinstance(e, Struct) and e.ty == 'BasicToken') or isinstance(e, VTok)
+    return False
 
 
 def merge_hook(ex, term, path, args):
